@@ -1886,6 +1886,23 @@ Proof.
   be_hom_tac; try apply IH.
 Qed.
 #[export] Hint Resolve be_hom_query_count be_hom_eat_go : be_hom.
+Lemma be_hom_eat_tables : forall index rels ne l count,
+  be_hom eq (entity_at_tables index rels ne l count) (entity_at_tables index rels ne l count).
+Proof.
+  intros index rels ne l. induction l as [|tid rest IH]; intros count;
+    [rewrite q_eat_tables_nil; be_hom_tac | rewrite q_eat_tables_cons].
+  be_hom_tac; try apply IH.
+Qed.
+#[export] Hint Resolve be_hom_eat_tables : be_hom.
+Lemma be_hom_eatl_go : forall index f q l count,
+  be_hom eq (q_eatl_go index (be_Tf f) q l count) (q_eatl_go index f q l count).
+Proof.
+  intros index f q l. induction l as [|aid rest IH]; intros count;
+    [rewrite !q_eatl_go_nil; be_hom_tac | rewrite !q_eatl_go_cons].
+  be_hom_step. rewrite be_filter_matches_T by assumption.
+  be_hom_tac; try apply IH.
+Qed.
+#[export] Hint Resolve be_hom_eatl_go : be_hom.
 Lemma be_hom_query_entity_at : forall qi i, be_hom eq (query_entity_at qi i) (query_entity_at qi i).
 Proof. intros. rewrite q_entity_at_eq. be_hom_tac. Qed.
 Lemma be_hom_drain_go : forall d qi fuel acc, be_hom eq (be_drain_go d qi fuel acc) (be_drain_go d qi fuel acc).
